@@ -12,7 +12,7 @@ RULE = (
     "cases = (p positional + k keyword argument futures + the function future, outcome per input from {value, exception, "
     "cancelled, never}, the function echoes (args, sorted kwargs) or raises, completion events over 1-3 threads, tape). "
     "Enumerated: every (p,k) with p+k<=4 x every completion order of all p+k+1 inputs, plus a failure at every position x every order "
-    "(p+k<=3); 8..64 arguments (function last, first argument last, in order, reversed, rotations; a failing argument in the middle; a raising function); Hypothesis: up to 5 positional + 4 keyword arguments completed concurrently with tapes. Oracle: result == fn(*args, **kwargs) "
+    "(p+k<=3); 8..64 arguments (function last, first argument last, in order, reversed, rotations; a failing argument in the middle; a raising function); one argument whose value is itself a future (done / failed / pending) at every position; Hypothesis: up to 5 positional + 4 keyword arguments completed concurrently with tapes. Oracle: result == fn(*args, **kwargs) "
     "of the plain values; fn called exactly once and only after the last input's completing call began; failing input or fn => that exception. "
     "Non-trivial = >=2 argument futures completing out of argument order or concurrently, or a failure. Distinct = digest of the case."
 )
@@ -77,8 +77,13 @@ def evaluate(case):
         if case.get("fn_raises"):
             exp = ("e", ("c", "a0.fn", 0))
         else:
-            exp = ("v", (tuple(world._thaw(value_of(1 + i)) for i in range(p)),
-                         tuple(sorted(("k%d" % j, world._thaw(value_of(1 + p + j))) for j in range(k)))))  # (the echo sorts by name)
+            fv = case.get("futvalues", {})
+
+            def val(i):
+                # (an argument whose VALUE is a future must reach the function as that very object)
+                return ["!future", combo.src(i) + ".val"] if str(i) in fv else world._thaw(value_of(i))
+            exp = ("v", (tuple(val(1 + i) for i in range(p)),
+                         tuple(sorted(("k%d" % j, val(1 + p + j)) for j in range(k)))))  # (the echo sorts by name)
         info["expected"] = [exp]
         if exp[0] != got[0] or world.jsonable(exp[1]) != world.jsonable(got[1]):
             bad("wrong-outcome:%s-for-%s" % (got[0], exp[0]), expected=exp, got=got)
@@ -138,6 +143,17 @@ def ev_for(i, kind, fn_raises=False):
     return None
 
 
+def futvalue_cases():
+    """Arguments whose value is itself a Future (finished, failed or pending): f_apply hands values on, it does not flatten them."""
+    for p, k in ((1, 0), (2, 0), (1, 1), (0, 1), (3, 1)):
+        n = 1 + p + k
+        for which in range(1, n):
+            for st in ("done", "err", "pending"):
+                for order in (list(range(n)), list(range(n - 1, -1, -1)), list(range(1, n)) + [0]):
+                    evs = [["c", i, "futvalue", st] if i == which else ev_for(i, "V") for i in order]
+                    yield {"p": p, "k": k, "futvalues": {str(which): st}, "threads": [evs], "tape": []}
+
+
 def enum_cases(part, parts):
     idx = 0
     for total in range(0, 5):
@@ -192,6 +208,7 @@ def shards(tier, seed):
     parts = 8
     specs = [{"mode": "enum", "part": i, "parts": parts} for i in range(parts)]
     specs.append({"mode": "arity"})
+    specs.append({"mode": "futvalue"})
     cc = sorted(conc_catalog())
     for i in range(0, len(cc), 1):
         specs.append({"mode": "conc", "entries": cc[i:i + 1], "double": tier == "thorough"})
@@ -233,6 +250,13 @@ def run_shard(spec, ctx):
             kk += 1
         ctx.exhaustive.append({"domain": "f_apply: (p,k) with p+k<=4 x all completion orders; failure/cancel/never at every position (p+k<=3); pre-done masks (p+k<=2) (part %d/%d)" % (spec["part"], spec["parts"]),
                                "size": kk, "complete": True})
+    elif spec["mode"] == "futvalue":
+        kk = 0
+        for case in futvalue_cases():
+            viols, info = evaluate(case)
+            account(ctx, case, viols, info, ["futvalue"])
+            kk += 1
+        ctx.exhaustive.append({"domain": "f_apply with one argument whose value is a future (done / failed / pending), every position, three orders", "size": kk, "complete": True})
     elif spec["mode"] == "arity":
         kk = 0
         for case in arity_cases():
